@@ -642,7 +642,9 @@ func UnpackRRWithHeader(h RR_Header, msg []byte, off int) (rr RR, off1 int, err 
 		return rr, off, nil
 	}
 
-	off, err = rr.unpack(msg, off)
+	// The RDATA ends at end: the field decoders take the end of the slice for
+	// the end of the record (as in UnpackRR, which hands in a re-sliced message).
+	off, err = rr.unpack(msg[:end], off)
 	if err != nil {
 		return nil, end, err
 	}
